@@ -62,7 +62,14 @@ static uint64_t fuzz_run(const char *method, const uint8_t *in, size_t n, size_t
 	int reads = 0, maxreads = sched == 2 ? 40 : 24;
 	uint64_t h = 0;
 	uint8_t *buf;
+	static long long polluted = -1;
 	if (!t) { vf_viol("no-decoder", "%s", method); return 0; }
+	if (polluted != VF.index && ((VF.index & 7) == 5 || VF.only >= 0)) {
+		/* a long valid stream of the same method is decoded to its end first: state a decoder leaves behind in the process
+		 * must not make a later (invalid) stream unsafe */
+		polluted = VF.index;
+		dec_pollute(method);
+	}
 	VIN.p = in; VIN.n = n; VIN.pos = 0; VIN.chunk = chunk; VIN.calls = VIN.zero_calls = 0;
 	pool_enable = 1;
 	d = lha_decoder_new(t, vin_cb, &VIN, declared);
@@ -95,7 +102,7 @@ static void fuzz_all_schedules(const char *method, const uint8_t *in, size_t n, 
 	int k;
 	uint64_t o = 0;
 	for (k = 0; k < 7; ++k) o = vf_mix(o, fuzz_run(method, in, n, decl[k], sch[k], 0));
-	if (chunk_too) o = vf_mix(o, fuzz_run(method, in, n, 8192, 2, 1));
+	if (chunk_too) o = vf_mix(o, fuzz_run(method, in, n, 8192, 2, (VF.index & 1) ? 1 : -1 - (int) ((VF.index >> 1) % 3)));
 	vf_outcome(o);
 }
 
